@@ -360,6 +360,8 @@ struct EG<'a> {
     vars: Vec<String>,
     outs: Vec<String>,
     zq: bool,
+    /// per-mille of inner nodes that are a simplification bait
+    bait_rate: u32,
 }
 
 fn level_ops(l: u8) -> Vec<BinOp> {
@@ -389,9 +391,84 @@ impl<'a> EG<'a> {
             }
         }
     }
+    /// Shapes that invite an algebraic simplification (constant folding, cancelling a pair of
+    /// negations, x OP x, strength reduction) which is wrong at the edges of i64 or drops a read
+    /// (added after seeded changes T-C08-agent17-2, T-C17-agent17-8 and T-C04-agent17-5)
+    fn bait(&mut self, depth: usize, in_ite: bool) -> Expr {
+        let d = depth.saturating_sub(1).min(2);
+        let mut a = self.tree(d, in_ite);
+        let mut b = self.tree(d, in_ite);
+        if self.r.chance(600, 1000) {
+            a = self.leaf(in_ite);
+        }
+        if self.r.chance(600, 1000) {
+            b = self.leaf(in_ite);
+        }
+        let bx = |e: Expr| Box::new(e);
+        let bin = |o: BinOp, l: Expr, r: Expr| Expr::Bin(o, Box::new(l), Box::new(r));
+        let neg = |e: Expr| Expr::Un(UnOp::Neg, Box::new(e));
+        let num = |v: i64| Expr::Num(v, Radix::Dec);
+        let pow2 = 1i64 << *self.r.pick(&[1u32, 1, 2, 3, 8, 31, 32, 62]);
+        let cnt = *self.r.pick(&[0i64, 1, 62, 63, 64, 65, 127, 128]);
+        let cmp = *self.r.pick(&[BinOp::Eq, BinOp::Ne, BinOp::Lt, BinOp::Gt, BinOp::Le, BinOp::Ge]);
+        let same = *self.r.pick(&[
+            BinOp::Sub, BinOp::Xor, BinOp::Eq, BinOp::Ne, BinOp::Lt, BinOp::Gt, BinOp::Le, BinOp::Ge, BinOp::And, BinOp::Or,
+            BinOp::Div, BinOp::Rem, BinOp::Add, BinOp::Mul, BinOp::Shl, BinOp::Shr,
+        ]);
+        let md = *self.r.pick(&[BinOp::Mul, BinOp::Div, BinOp::Rem]);
+        let pm = *self.r.pick(&[BinOp::Add, BinOp::Sub]);
+        match self.r.below(30) {
+            0 | 1 => bin(BinOp::Div, neg(a), neg(b)),
+            2 => bin(BinOp::Rem, neg(a), neg(b)),
+            3 => bin(BinOp::Mul, neg(a), neg(b)),
+            4 => neg(bin(md, a, b)),
+            5 => bin(md, a, neg(b)),
+            6 => bin(md, neg(a), b),
+            7 => bin(BinOp::Div, bin(BinOp::Mul, a, b.clone()), b),
+            8 => bin(BinOp::Mul, bin(BinOp::Div, a, b.clone()), b),
+            9 => bin(BinOp::Sub, bin(BinOp::Add, a, b.clone()), b),
+            10 => bin(BinOp::Shr, bin(BinOp::Shl, a, b.clone()), b),
+            11 => bin(BinOp::Shl, bin(BinOp::Shr, a, b.clone()), b),
+            12 | 13 | 14 => bin(same, a.clone(), a),
+            15 => match self.r.below(4) {
+                0 => bin(BinOp::Mul, a, num(0)),
+                1 => bin(BinOp::Mul, num(0), a),
+                2 => bin(BinOp::And, a, num(0)),
+                _ => bin(BinOp::Mul, a, neg(num(1))),
+            },
+            16 => match self.r.below(6) {
+                0 => bin(BinOp::Div, num(0), a),
+                1 => bin(BinOp::Rem, num(0), a),
+                2 => bin(BinOp::Rem, a, num(1)),
+                3 => bin(BinOp::Div, a, num(1)),
+                4 => bin(BinOp::Rem, a, neg(num(1))),
+                _ => bin(BinOp::Div, a, neg(num(1))),
+            },
+            17 => {
+                let u = *self.r.pick(&[UnOp::Neg, UnOp::Not, UnOp::BitNot]);
+                Expr::Un(u, bx(Expr::Un(u, bx(a))))
+            }
+            18 => Expr::Un(UnOp::Not, bx(bin(cmp, a, b))),
+            19 => bin(*self.r.pick(&[BinOp::Shl, BinOp::Shr]), a, num(cnt)),
+            20 => bin(*self.r.pick(&[BinOp::Shl, BinOp::Shr]), a, neg(num(cnt))),
+            21 => Expr::Ite(bx(num(self.r.below(2) as i64)), bx(a), bx(b)),
+            22 => Expr::Ite(bx(b), bx(a.clone()), bx(a)),
+            23 => bin(BinOp::Sub, num(0), a),
+            24 => bin(pm, a, neg(b)),
+            25 => bin(cmp, bin(BinOp::Sub, a, b), num(0)),
+            26 => bin(BinOp::Div, a, num(pow2)),
+            27 => bin(BinOp::Rem, a, num(pow2)),
+            28 => bin(BinOp::Mul, a, num(pow2)),
+            _ => neg(bin(pm, a, b)),
+        }
+    }
+
     fn tree(&mut self, depth: usize, in_ite: bool) -> Expr {
         if depth == 0 || self.r.chance(180, 1000) {
             return self.leaf(in_ite);
+        }
+        if self.r.chance(self.bait_rate, 1000) {
+            return self.bait(depth, in_ite);
         }
         match self.r.below(100) {
             0..=13 => {
@@ -578,11 +655,20 @@ fn c08_check(case: &Case, trees: &[Expr], case_seed: u64, variant: &str, acc: &m
 
 pub fn c08(case_seed: u64, acc: &mut Acc) {
     let mut r = Prng::new(case_seed);
+    // one case in six is made of simplification baits over the very edges of i64
+    let baits = r.chance(1, 6);
+    const BAIT_VALS: [i64; 10] = [i64::MIN, i64::MIN, i64::MAX, -1, -2, 2, 0, 1, i64::MIN + 1, 1 << 62];
     let var_vals: Vec<(String, i64)> = ["x", "y", "z", "w"]
         .iter()
         .enumerate()
         .map(|(i, n)| {
-            let v = if r.chance(1, 2) { [3, 5, 7, 11][i] } else { *r.pick(&EDGE_VALS) };
+            let v = if baits {
+                *r.pick(&BAIT_VALS)
+            } else if r.chance(1, 2) {
+                [3, 5, 7, 11][i]
+            } else {
+                *r.pick(&EDGE_VALS)
+            };
             (n.to_string(), v)
         })
         .collect();
@@ -590,10 +676,19 @@ pub fn c08(case_seed: u64, acc: &mut Acc) {
         .iter()
         .enumerate()
         .map(|(i, n)| {
-            let v = if r.chance(1, 2) { [13, 17, 19][i] } else { r.interesting_i64() };
+            let v = if baits {
+                *r.pick(&BAIT_VALS)
+            } else if r.chance(1, 2) {
+                [13, 17, 19][i]
+            } else {
+                r.interesting_i64()
+            };
             (n.to_string(), OutVal::V(v))
         })
         .collect();
+    if baits {
+        acc.tag("simplification_baits_over_edge_values");
+    }
     out_vals.push(("ZQ".into(), OutVal::Z));
     let vv = var_vals.clone();
     let ov = out_vals.clone();
@@ -614,8 +709,12 @@ pub fn c08(case_seed: u64, acc: &mut Acc) {
         tries += 1;
         let d = 1 + r.below(6);
         let t = {
-            let mut g = EG { r: &mut r, vars: var_vals.iter().map(|v| v.0.clone()).collect(), outs: vec!["P".into(), "R".into(), "S".into()], zq: true };
-            g.tree(d, false)
+            let mut g = EG { r: &mut r, vars: var_vals.iter().map(|v| v.0.clone()).collect(), outs: vec!["P".into(), "R".into(), "S".into()], zq: true, bait_rate: if baits { 0 } else { 60 } };
+            if baits {
+                g.bait(d, false)
+            } else {
+                g.tree(d, false)
+            }
         };
         let t = if long {
             Expr::Ite(Box::new(Expr::Num((tries & 1) as i64, Radix::Dec)), Box::new(t.clone()), Box::new(Expr::Ite(Box::new(Expr::Ident("x".into())), Box::new(t), Box::new(Expr::Num(1, Radix::Dec)))))
